@@ -98,6 +98,18 @@ def corpus():
     out.append(_case('type Query { a: Int @deprecated(reason: null) b: Int @deprecated c: Int @deprecated(reason: "") '
                      'd: Int @deprecated(reason: "x") @deprecated(reason: "y") }', "valid"))
     out.append(_case("schema { query: Query }\ntype Query { a: Int }\ntype Mutation { b: Int }", "valid"))
+    # seeded C14-g: an explicit `= null` default is a default (has_default_value, value None), also after the
+    # document went through extend_schema because of an unrelated extension -- field arguments, input fields,
+    # directive arguments; named, list and enum types
+    out.append(_case("directive @tag(label: String = null, ns: [Int] = null, c: Color = null) on FIELD_DEFINITION\n"
+                     "enum Color { RED GREEN }\n"
+                     "input Filter { prefix: String = null, ids: [Int] = null, color: Color = null, plain: Int, n: Int = 0 }\n"
+                     "type Query { greet(name: String = null, xs: [Int] = null, c: Color = null, f: Filter = null, "
+                     "plain: Int, e: String = \"\"): Int @tag\n  version: Int }\n"
+                     "extend type Query { extra: Int }", "explicit-null-defaults"))
+    out.append(_case("type Query { greet(name: String = null, c: Color = null): Int }\n"
+                     "input Filter { prefix: String = null, ids: [Int!] = null }\n"
+                     "enum Color { RED }\nextend enum Color { GREEN }", "explicit-null-defaults"))
     # seeded C11-f: default root names are matched exactly (case-sensitive), whatever the definition order
     out.append(_case("type mutation { b: Int }\ntype QUERY { c: Int }\ntype Query { a: Int }\ntype SubScription { d: Int }\n"
                      "type query { e: Int }", "root-case-variants"))
